@@ -1,6 +1,9 @@
 //! Evaluates a [`crate::circuit::Circuit`] with inputs supplied by different parties.
 
+#[cfg(not(feature = "verif_hooks"))]
 use std::{collections::HashMap, fmt::Debug};
+#[cfg(feature = "verif_hooks")]
+use {crate::verif_hooks::HashMap, std::fmt::Debug};
 
 use crate::{
     CircuitType, CompileTimeError, TypedFnDef, TypedProgram,
